@@ -67,6 +67,7 @@ mutual
     | .list [.atom "dot", c] => (toSimple c).map .dot
     | .atom "dotsyn" => some .dotSyn
     | .atom "dotioerr" => some .dotIoErr
+    | .atom "evalempty" => some .evalEmpty
     | .list [.atom "execfail", i] => i.nat?.map fun i => .execFail (i != 0)
     | _ => none
 
@@ -189,6 +190,27 @@ def runSc (line : String) : String :=
         let s0 : St := { errexit := e }
         let o := runShellSc i 1000 s0 true t ls
         showSc o ++ "\t" ++ specVerdict i s0 ls
+  | _ => "bad-case\t-"
+
+def toFrame : String → Option Frame
+  | "loop" => some .loop | "sub" => some .subshell | "cond" => some .condition | "bs" => some (.builtin true)
+  | "bn" => some (.builtin false) | "dot" => some .dotScript | "trap" => some .trap | "init" => some .initFile
+  | _ => none
+
+/-- `rp <status> <frame, top first>…`: `yash_builtin::common::report::report` called on an Env with that frame stack
+    (also the empty one: no built-in is running).  Spec column: the innermost `Builtin` frame decides, found by a
+    plain search (`current_builtin_is_innermost` is the theorem) -/
+def runRp (line : String) : String :=
+  match tokenize line with
+  | "rp" :: st :: frames =>
+    match st.toNat?, frames.mapM toFrame with
+    | some st, some stack =>
+      let show_ (r : Res) := s!"status={st} div={showRes r}"
+      let spec : Res := match stack.find? (fun f => match f with | .builtin _ => true | _ => false) with
+        | some (.builtin true) => .break_ (.interrupt none)
+        | _ => .continue_
+      show_ (reportDivert stack) ++ "\t=" ++ show_ spec
+    | _, _ => "bad-case\t-"
   | _ => "bad-case\t-"
 
 /-- `rd <seed> (<interactive> <errexit> <EXIT action probe 99: 0|1>)`: the main input cannot be read -/
